@@ -21,7 +21,8 @@ FLOAT_POOL = {
     "max": 1.7976931348623157e308, "-max": -1.7976931348623157e308, "subnormal": 5e-324,
     "tiny32": 1.401298464324817e-45, "inf": math.inf, "-inf": -math.inf, "nan": math.nan,
     "ndv_next": float(np.nextafter(np.float64(FLOAT_NDV), 1.0)), "ndv_prev": float(np.nextafter(np.float64(FLOAT_NDV), 0.0)),
-    "1e-38": 1e-38, "pi": math.pi, "1e10": 1e10, "3e10": 3e10, "-1.5": -1.5,
+    "ndv": FLOAT_NDV, "ndv*(1+5e-6)": FLOAT_NDV * (1 + 5e-6), "ndv*(1-5e-6)": FLOAT_NDV * (1 - 5e-6),
+    "tiny32_exact": float(np.finfo(np.float32).tiny), "1e-38": 1e-38, "pi": math.pi, "1e10": 1e10, "3e10": 3e10, "-1.5": -1.5,
 }
 INT_POOL = {
     "0": 0, "1": 1, "-1": -1, "2": 2, "7": 7, "-7": -7, "255": 255, "2^31-1": INT32_MAX, "2^31": 2 ** 31,
@@ -58,7 +59,8 @@ def token_array(dtype: str, tokens) -> np.ndarray:
 
 
 def is_ndv_float(v: float) -> bool:
-    return abs(v - FLOAT_NDV) <= 1e-45
+    """The documented exception is a float EXACTLY equal to the sentinel (float64 comparison)."""
+    return float(v) == FLOAT_NDV
 
 
 def expected(kind: str, arr: np.ndarray, count: int):
